@@ -176,6 +176,7 @@ inductive Proj where
   | cube (k : Rat)              -- (e³/k, n)            monotone, non-linear
   | square                      -- (e², n²)             non-monotone across 0
   | shear (k : Rat)             -- (e + k·n, n − k·e)   not axis-aligned
+  | lin (a11 a12 a21 a22 b1 b2 : Rat)   -- general affine map
   deriving Repr
 
 def Proj.apply : Proj → Rat × Rat → Rat × Rat
@@ -183,6 +184,18 @@ def Proj.apply : Proj → Rat × Rat → Rat × Rat
   | .cube k, (e, n) => (e * e * e / k, n)
   | .square, (e, n) => (e * e, n * n)
   | .shear k, (e, n) => (e + k * n, n - k * e)
+  | .lin a11 a12 a21 a22 b1 b2, (e, n) => (a11 * e + a12 * n + b1, a21 * e + a22 * n + b2)
+
+/-- Inverse of the invertible affine projections (used by `profile`). -/
+def Proj.inverse? : Proj → Option Proj
+  | .affine a b c d => if a = 0 ∨ c = 0 then none else some (.lin (1 / a) 0 0 (1 / c) (-b / a) (-d / c))
+  | .shear k => let den := 1 + k * k; some (.lin (1 / den) (-k / den) (k / den) (1 / den) 0 0)
+  | .lin a11 a12 a21 a22 b1 b2 =>
+    let det := a11 * a22 - a12 * a21
+    if det = 0 then none else
+    some (.lin (a22 / det) (-a12 / det) (-a21 / det) (a11 / det)
+      (-(a22 * b1 - a12 * b2) / det) (-(-a21 * b1 + a11 * b2) / det))
+  | _ => none
 
 /-- `project_region`: bounding box of the projected nodes of a 101×101 grid of the region. -/
 def projectRegion (region : List Rat) (p : Proj) (size : Nat := 101) : Except Err (Option Region) := do
